@@ -84,7 +84,7 @@ def _group(lines):
 def run(tier, seed):
     res = core.Result(PROP, tier, seed)
     # ---- 1. model-level refinement
-    consts = dict(Tier=tier, Seed=seed, Part=0, NParts=1, Mode="model", FixedNeg=True, FixedAbs=True)
+    consts = dict(Tier=tier, Seed=seed, ValSeed=seed, Part=0, NParts=1, Mode="model", FixedNeg=True, FixedAbs=True)
     rm = tlc.run("MC_C03", "c03.model." + tier, constants=consts, invariants=["InvRefine", "InvIntSlice", "InvMoved"],
                  workers=16, timeout=3000, heap="8g")
     res.add_tlc("MC_C03[model]", rm)
@@ -102,7 +102,7 @@ def run(tier, seed):
                 raise core.MachineryError("non-vacuity self-test failed: defective model variant %s was accepted" % name)
         res.notes["defective_model_variants_rejected"] = 2
     # ---- 2. behaviours
-    r = tlc.run_sharded("MC_C03", "c03." + tier, 8, dict(Tier=tier, Seed=seed, Mode="replay", FixedNeg=True, FixedAbs=True), timeout=6000)
+    r = tlc.run_sharded("MC_C03", "c03." + tier, 8, dict(Tier=tier, Seed=seed, ValSeed=seed, Mode="replay", FixedNeg=True, FixedAbs=True), timeout=6000)
     res.add_tlc("MC_C03[replay]", r)
     behs = _group(r["out"])
     if not behs:
